@@ -1,25 +1,86 @@
 """C03 Specifier.contains implements PEP 440 operator semantics (pre-releases enabled)."""
+from dataclasses import replace
 from core import Case
 import gen, gen_spec
 
 IMPL_MODULE = "spec_impl"
-RULE = ("operator x specifier version spelling (admissible and inadmissible forms, wildcards, arbitrary text) x candidates related to the specifier's "
-        "version (equal spellings, locals added/removed, bumped/padded/dropped components, pre/post/dev variants); 'sp.sem' compares the implementation with the "
-        "declarative operator semantics, 'sp.contains' with the code model; non-trivial = specifier and candidate both accepted")
+RULE = ("operator x specifier version spelling (admissible and inadmissible forms, wildcards, zero-tailed and 9-14 component releases, arbitrary text; "
+        "all 29 whitespace code points around operator, text and candidate) x candidates related to the specifier's version (equal spellings, locals "
+        "added/removed, bumped/padded/dropped components, releases cut back into the zero tail, pre/post/dev variants), passed as str, Version or "
+        "Version-subclass objects; 'sp.sem' compares the implementation with the declarative operator semantics, 'sp.sem.obj' the same with pre-releases "
+        "enabled by the object's own setting through contains() and `in`, 'sp.contains'/'sp.query' with the code model under every combination of call "
+        "argument and object setting; 'law.sp.oracle' compares contains() with an independent structured reading of the statement computed by the "
+        "harness from the generated version records (third leg); a === stream substitutes U+212A/U+0130/U+017F into the text; "
+        "non-trivial = specifier and candidate both accepted")
+KINDS = ["str", "str", "obj", "sub"]
+
+
+def confusable_cases(rng, out):
+    """=== against texts in which k/i/s are replaced by KELVIN SIGN / I WITH DOT / LONG S: model correspondence, and the two that may never match."""
+    V3 = gen.fix_local(replace(gen.rand_v(rng, local_p=0.0), local=tuple(rng.choice(["kis", "sk1", "ki", "k", "i1s", "s", "risk", 7]) for _ in range(rng.choice([1, 2, 3])))))
+    if rng.random() < 0.5: V3 = replace(V3, post=rng.choice(gen.SMALL))                              # ".post": an s outside the local label
+    base = gen.rand_case(rng, gen.vstr(V3)) if rng.random() < 0.5 else gen.vstr(V3)
+    txt, used = gen_spec.confuse(rng, base, only=rng.choice([None, None, {"K"}, {"İ"}, {"ſ"}]))
+    s = rng.choice(gen_spec.WS_U) + "===" + rng.choice(gen_spec.WS_U) + txt + rng.choice(gen_spec.WS_U)
+    for c in [V3] + gen_spec.related_structured(rng, V3, 1):
+        ctxt = gen_spec.pad_ws(rng, gen.spell(rng, c, ws=False), 0.3)
+        out.append(Case("arb-confusable:sem", "sp.sem", [s, ctxt]))
+        out.append(Case("arb-confusable:contains", "sp.query", [s, rng.choice("NTF"), ctxt, rng.choice("NTF"), rng.choice("ca"), rng.choice(["contains", "in"]), rng.choice(KINDS)]))
+        # U+0130 lower-cases to "i" + U+0307 and U+017F to itself: a text containing either is never the candidate's (ASCII) string
+        if used & {"İ", "ſ"}:
+            out.append(Case("arb-confusable:never", "law.sp.oracle", [s, ctxt, "F", rng.choice(KINDS)], kind="law"))
+
+
+def oracle_cases(rng, out):
+    """third leg: structured specifier version and structured candidates -> expected answer from gen_spec.oracle, checked on the real objects"""
+    op = rng.choice(gen_spec.OPS)
+    v = gen.rand_v(rng, local_p=0.25)
+    r = rng.random()
+    if r < 0.2: v = gen_spec.zero_tail(rng, v)
+    elif r < 0.25: v = gen_spec.long_release(rng, v)
+    if op == "===":
+        V = gen.fix_local(v)
+        s = rng.choice(gen_spec.WS_U) + "===" + rng.choice(gen_spec.WS_U) + gen.rand_case(rng, gen.vstr(V)) + rng.choice(gen_spec.WS_U)
+        for c in [V] + gen_spec.related_structured(rng, V, 2):
+            want = gen.vstr(c) == gen.vstr(V)                                                       # the candidate's normalised string, case-insensitively
+            out.append(Case("oracle:===", "law.sp.oracle", [s, gen_spec.pad_ws(rng, gen.spell(rng, c, ws=False), 0.3), "T" if want else "F", rng.choice(KINDS)], kind="law"))
+        return
+    s, op, V, wild = gen_spec.spec_string(rng, op=op, v=v, admissible_p=1.0, ws=gen_spec.WS_U)
+    for c in gen_spec.related_structured(rng, V, 3):
+        want = gen_spec.oracle(op, V, wild, c)
+        out.append(Case("oracle:" + op + (".*" if wild else ""), "law.sp.oracle",
+                        [s, gen_spec.pad_ws(rng, gen.spell(rng, c, ws=False), 0.3), "T" if want else "F", rng.choice(KINDS)], kind="law"))
+
 
 def streams(rng, tier):
     q = tier == "quick"
     out = []
     for _ in range(5000 if q else 120000):
-        s, op, V, wild = gen_spec.spec_string(rng)
+        v = None
+        r = rng.random()
+        if r < 0.15: v = gen_spec.zero_tail(rng, gen.rand_v(rng, local_p=0.25))                    # ==V.* that only a zero-padded candidate matches
+        elif r < 0.2: v = gen_spec.long_release(rng, gen.rand_v(rng, local_p=0.25))
+        s, op, V, wild = gen_spec.spec_string(rng, v=v, ws=gen_spec.WS_U if rng.random() < 0.6 else None)
         if rng.random() < 0.05: s = gen.mutate(rng, s)
-        for c in gen_spec.related_candidates(rng, V, 2):
+        for cv in gen_spec.related_structured(rng, V, 2):
+            c = gen_spec.pad_ws(rng, gen.spell(rng, cv, ws=rng.random() < 0.3), 0.25)
             if rng.random() < 0.03: c = gen.mutate(rng, c)
             out.append(Case("sem:" + op, "sp.sem", [s, c]))
             if rng.random() < 0.5: out.append(Case("contains", "sp.contains", [s, "T", c]))
             # the call argument decides, whatever the object's own setting says (constructor keyword or assigned attribute)
             if rng.random() < 0.15: out.append(Case("contains:override", "sp.contains", [s, "T", c, rng.choice("TF"), rng.choice("ca")]))
+            # pre-releases enabled by the object's own setting, no call argument: contains() and `in`, str / Version / subclass candidates
+            if rng.random() < 0.3:
+                via = rng.choice(["contains", "in"])
+                out.append(Case("sem:object-setting:" + via, "sp.sem.obj", [s, c, via, rng.choice(KINDS), rng.choice("ca")]))
+            # every combination of call argument x object setting x observation point x candidate object, against the code model
+            if rng.random() < 0.4:
+                via = rng.choice(["contains", "in"])
+                out.append(Case("query:" + via, "sp.query", [s, rng.choice("NTF"), c, rng.choice("NNTF"), rng.choice("ca"), via, rng.choice(KINDS)]))
+    for _ in range(1500 if q else 30000): oracle_cases(rng, out)
+    for _ in range(600 if q else 12000): confusable_cases(rng, out)
     return out
 
+
 def nontrivial(c, i):
-    return i in ("T", "F")
+    return c.kind == "law" or i in ("T", "F")
